@@ -208,16 +208,11 @@ func (e *Engine) findDFA(haystack []byte) *Match {
 		return nil
 	}
 
-	// DFA found match ending at endPos - use reverse search to find start
-	// This is O(m) where m = match length, not O(n)
-	// For patterns without prefilter, estimate start position
-	// and search from there
-	estimatedStart := 0
-	if endPos > 100 {
-		// For long haystacks, start search closer to the match end
-		estimatedStart = endPos - 100
-	}
-	start, end, matched := e.pikevm.SearchAt(haystack, estimatedStart)
+	// DFA confirmed that a match exists, but it does not track the start
+	// position. The match length is unbounded, so the start cannot be
+	// estimated from endPos: search from the beginning to get the exact
+	// leftmost-first bounds.
+	start, end, matched := e.pikevm.SearchAt(haystack, 0)
 	if !matched {
 		return nil
 	}
@@ -272,13 +267,10 @@ func (e *Engine) findAdaptive(haystack []byte) *Match {
 		endPos := e.dfa.Find(state.dfaCache, haystack)
 		if endPos != -1 {
 			e.putSearchState(state)
-			// DFA succeeded - get exact match bounds from NFA
-			// Use estimated start position for O(m) search instead of O(n)
-			estimatedStart := 0
-			if endPos > 100 {
-				estimatedStart = endPos - 100
-			}
-			start, end, matched := e.pikevm.SearchAt(haystack, estimatedStart)
+			// DFA succeeded - get exact match bounds from NFA.
+			// The match length is unbounded, so the start cannot be estimated
+			// from endPos: search from the beginning.
+			start, end, matched := e.pikevm.SearchAt(haystack, 0)
 			if !matched {
 				return nil
 			}
